@@ -157,3 +157,42 @@ func (u *Universe) checkG1() []*Oblig {
 	}
 	return out
 }
+
+// checkSentinels: the error model identifies an error with its errors.Is match set over the cvsserr sentinels, which
+// presupposes that the sentinels are pairwise distinct values: each must be initialised by its own errors.New(literal).
+func (u *Universe) checkSentinels() []*Oblig {
+	var out []*Oblig
+	cp := u.Pkgs["cerr"]
+	if cp == nil {
+		return []*Oblig{{Name: "sentinels#package-missing", Kind: "g1", Goal: tFalse, Result: "sat", Solver: "syntactic", Note: "package cvsserr not loaded"}}
+	}
+	n := 0
+	for v, init := range u.PkgVars {
+		if v.Pkg() != cp.Types {
+			continue
+		}
+		n++
+		ok := false
+		if call, isCall := init.(*ast.CallExpr); isCall {
+			if sel, isSel := call.Fun.(*ast.SelectorExpr); isSel && sel.Sel.Name == "New" {
+				if id, isID := sel.X.(*ast.Ident); isID && id.Name == "errors" && len(call.Args) == 1 {
+					if lit, isLit := call.Args[0].(*ast.BasicLit); isLit && lit.Kind == token.STRING {
+						ok = true
+					}
+				}
+			}
+		}
+		if !ok {
+			ps := u.Fset.Position(init.Pos())
+			out = append(out, &Oblig{Name: "sentinels#" + v.Name(), Kind: "g1", Goal: tFalse, Result: "sat", Solver: "syntactic", Where: fmt.Sprintf("%s:%d", u.relFile(ps.Filename), ps.Line),
+				Note: "sentinel " + v.Name() + " is not initialised by its own errors.New(<literal>): sentinels may alias"})
+		}
+	}
+	if n != 11 {
+		out = append(out, &Oblig{Name: "sentinels#count", Kind: "g1", Goal: tFalse, Result: "sat", Solver: "syntactic", Note: fmt.Sprintf("%d sentinels declared in cvsserr, the error model has 11", n)})
+	}
+	if len(out) == 0 {
+		out = append(out, &Oblig{Name: "sentinels#pairwise-distinct(11 errors.New values)", Kind: "g1", Goal: tTrue, Result: "unsat", Solver: "syntactic"})
+	}
+	return out
+}
